@@ -28,6 +28,11 @@ CLAIMED = {
         text="For every gate name in pyqasm's operation tables that has a defining unitary in spec/gates_spec.py (all but xx_plus_yy, xy, ms) the theorem C05_partial states that the emitted basis-gate circuit equals the defining unitary up to a unit scalar for ALL real parameter vectors; proved in Coq by a polynomial-identity argument over Z[zeta_64][u_i^+-1] with a soundness theorem into the reals. The model (GatesGen.v) is regenerated from /repo's maps.py by a fail-closed translator on every run. A numeric oracle on the real unroll() output searches for a failing input when the proof breaks and watches the names the theorem excludes.",
         ref="DESIGN.md §3.2, §4.1, §6/C05",
         note="Trusted: Coq kernel + vm_compute; Reals axioms sig_forall_dec, sig_not_dec, functional_extensionality_dep (stdlib); translator/maps2coq.py; spec/gates_spec.py and coq/Gates/Basis.v (specification); binary64 angles idealised as reals; the k-qubit identity is not lifted to an arbitrary position in an n-qubit register. ms is numeric-only. xx_plus_yy/xy/ms are known findings."),
+    "C06": dict(engine="coq-gates",
+        technique="Coq proof by reflection of the library inverse table (regenerated from maps.py) + theorems on the model's modifier collapse for every stack + group-theoretic theorem for nested custom gates; correspondence and numeric oracles on real unroll() output",
+        text="Theorems: (1) for every gate name the inverse table accepts (45+ names), the circuit emitted for inv @ g(params) undoes the circuit emitted for g(params) up to a global phase for ALL real parameters (decision procedure over the cyclotomic-Laurent ring with soundness into R, on GatesGen.v regenerated from maps.py each run); the other names are rejected. (2) For every modifier stack of inv and integer pow of any length the model's _collapse_gate_modifiers returns (product of |k_i|, parity of inversions); it is invariant under permutation of the stack, multiplicative over concatenation, pow(0) gives 0 repetitions, pow(-k) equals inv with pow(k); ctrl/negctrl are rejected. (3) Over an arbitrary group of circuit meanings: the expansion of inv @ c for a call tree of custom gates nested to any depth (body reversed, inv pushed to the members) denotes the inverse of c, given (1) for its library leaves; pow(n) denotes the n-th power; pow(-n) the inverse of the n-th power. Tie: translator for (1); model vs real unroll() on all stacks up to length 3 over representative gates, every library name under five stacks, random stacks over nested custom gates; independent numeric oracles on the real output (G; inv @ G = identity, pow(k) = k copies, pow(-k) = k inverse copies, permuted stacks agree).",
+        ref="DESIGN.md §6/C06",
+        note="Trusted: Coq kernel + vm_compute; Reals axioms sig_forall_dec, sig_not_dec, functional_extensionality_dep (stdlib) for (1); translator/maps2coq.py; spec/gates_spec.py, coq/Gates/Basis.v; binary64 angles idealised as reals; " + LANG_NOTE + "Non-integer pow is outside the theorems (the model raises an internal error as the code does)."),
     "C02": dict(
         engine="coq-lang",
         technique="Coq theorems on the visitor model's operand resolution + exact correspondence with pyqasm on enumerated index/broadcast/alias/subroutine shapes",
